@@ -172,9 +172,9 @@ def _random_block(r):
             k = pool[i]
         else:
             k = r.choice(WORDS) + r.choice(["", "1", "2"])
-        ind = r.choice(["", "", "  ", "\t"])
+        ind = r.choice(["", "", "  ", "\t"] + ([] if r.random() < 0.7 else ["\x0c", "\u2028", "\u0085 ", "\r", "\u3000\t"]))      # odd White_Space
         if mode == "none":
-            lines.append(ind + k + r.choice(["", "", " "]))
+            lines.append(ind + k + r.choice(["", "", " "] + ([] if r.random() < 0.7 else ["\r", " \r", "\x0b", "\u3000", "\u00a0"])))
         elif mode == "group":
             lines.append(ind + "id: " + k + r.choice(["", " trailing", " x"]))
         else:
